@@ -409,7 +409,7 @@ pub fn run_e2<K: HKey>(case: &E2Case, lenses: E2Lenses) -> R<CaseMeta> {
         if lenses.powerloss {
             asyn = false;
         }
-        let script = Script { cfg: case.cfg.clone(), asyn, cleanup: ep.cleanup, ops, dump: false };
+        let script = Script { cfg: case.cfg.clone(), asyn, cleanup: ep.cleanup, ops, dump: false, pre_create: false };
         let mut fs0 = Fs::from_dir(&root);
         fs0.root = root.to_string_lossy().to_string();
         let run = run_worker(&root, &work, &format!("e{ei}"), &script, ShimMode::Trace, Duration::from_secs(60));
